@@ -15,11 +15,11 @@ CHECKS = {
    note="Trusted: refchess make(); ep convention as stated in DESIGN.md (exact when a capturer is adjacent)."),
  "C10": dict(level="exploration", design="DESIGN.md §4 C10",
    technique="exhaustive enumeration of ray-occupancy subsets and square pairs against a coordinate ray-walk oracle, plus generated random occupancies",
-   text="Complete enumeration of every subset of every square's rook and bishop rays (bare and with off-ray noise), all knight/king squares, all 4032 ordered pairs of the line tables; plus millions of random full-board occupancies for the queen.",
+   text="Complete enumeration of every subset of every square's rook and bishop rays (bare and with off-ray noise), all knight/king squares, all 4032 ordered pairs of the line tables; plus millions of random full-board occupancies for the queen. Part 'sequences' (lookups in order on one table): position sweeps (one occupancy, every ordered pair of lookups over R/B/Q and 64 x 64 squares) and revisits after N lookups from other squares, N around the powers of two up to 2^17.",
    note="Assumes bits off the rays cannot matter (exercised with noise, not proved); between(a,a) is outside the property."),
  "C14": dict(level="exploration", design="DESIGN.md §4 C14",
    technique="property-based testing of algebraic laws (purity under evaluation order, antisymmetry, mirror symmetry, bound) over generated positions and evaluation sequences",
-   text="Sequences of evaluations on one long-lived evaluator compared with fresh evaluators; exact antisymmetry and mirror symmetry; |eval| < 32767 with the measured maximum reported; includes an extreme-material family. Enumerated part 'material': every material signature with up to three men besides the king on each side, 60 placements each, rows through one evaluator.",
+   text="Sequences of evaluations on one long-lived evaluator compared with fresh evaluators; exact antisymmetry and mirror symmetry; |eval| < 32767 with the measured maximum reported; includes an extreme-material family. Enumerated part 'material': every material signature with up to three men besides the king on each side, 60 placements each, rows through one evaluator. Every position of a sequence is followed on the same evaluator by an occupancy twin (same squares and colours, one man of another kind); material rows end with the extreme counts promotions can produce.",
    note="'Well inside the window' is judged by the necessary condition |eval| < 32767."),
  "C15": dict(level="exploration", design="DESIGN.md §4 C15",
    technique="model-based (state-machine) property testing: generated store/retrieve histories on near-colliding key universes checked after every operation against an observational model of exactly the statement (a lookup may return nothing at any time; nothing else may differ)",
@@ -36,7 +36,7 @@ CHECKS = {
    note="Trusted: refchess, the engine's evaluation as leaf scorer (C14), the soundness argument for the alpha-beta leaf reference in DESIGN.md §3.3. Cases over the reference node cap or with deeper-entry reuse are excluded and counted."),
  "C06": dict(level="fault_enumeration", design="DESIGN.md §4 C06",
    technique="fault-point enumeration inside a property-based test: the deadline is a generated/enumerated node count (hook), every expiry point of small searches is tried; oracle = reference minimax + table-claim audit + history snapshot",
-   text="For generated positions every node count 1..T-1 at which the deadline can fall is enumerated (sampled for larger searches), alone and in sequences of 1..3 interruptions; after each, the history record must be unchanged, every table entry left behind must be a true claim, and a completed follow-up search must report the reference value.",
+   text="For generated positions every node count 1..T-1 at which the deadline can fall is enumerated (sampled for larger searches), alone and in sequences of 1..3 interruptions; after each, the history record must be unchanged, every table entry left behind must be a true claim, and a completed follow-up search must report the reference value. Parts 'last-iteration' (many positions, tiny ones — pawn endings above all — to depth 5..7, 14 deadlines each inside the last iteration; only positions whose uninterrupted search reuses no deeper cached result) and 'last-iteration-large' (8..22 men at depth 3..4, follow-up compared with a fresh engine's fixed-depth value).",
    note="Deadline expressed in nodes via the SearchTimer hook (at node k the timer's own limit becomes zero; the engine's real deadline test decides). Reference as in C05."),
  "C07": dict(level="fault_enumeration", design="DESIGN.md §4 C07",
    technique="fault-point enumeration/sampling of deadline node counts (stateful: optional earlier searches on the same engine) with an invariant on passive instrumentation counters (observation latency, work after the expiry became observable), incl. constructed explosive positions; plus black-box property testing of the real binary under a real clock judged on CPU time consumed after the budget",
@@ -44,7 +44,7 @@ CHECKS = {
    note="Node-count formulation via a passive hook (the engine's own deadline test decides). The black-box verdict uses CPU time of the single-threaded process (a lower bound of wall-clock time), never wall-clock time itself."),
  "C11": dict(level="exploration", design="DESIGN.md §4 C11",
    technique="property-based testing: metamorphic relations on the hash (transposing move orders and FEN-vs-play must be equal; single-component flips must differ) and population collision check, under several fresh key draws",
-   text="Commuting move-order pairs verified equal by the reference, positions by FEN vs by play with different counters, single-feature flips through the public Board API, and pools of >=10^4 positions per worker; each under 8 (64 thorough) independent ZobristTable::new() draws. Enumerated part 'component-pairs': for every pair of components (man on a square, castling right, en-passant square, side to move: ~200 000 pairs with a pair of valid positions) two positions differing in exactly those two must hash differently.",
+   text="Commuting move-order pairs verified equal by the reference, positions by FEN vs by play with different counters, single-feature flips through the public Board API, and pools of >=10^4 positions per worker; each under 8 (64 thorough) independent ZobristTable::new() draws. Enumerated part 'component-pairs': for every pair of components (man on a square, castling right, en-passant square, side to move: ~200 000 pairs with a pair of valid positions) two positions differing in exactly those two must hash differently. Part 'marathon': one table per case, 40 000 positions with ever new pawn structures, earlier ones hashed again (each keeps its first value).",
    note="Keys come from thread_rng and cannot be seeded; inequality verdicts carry a 2^-64 coincidence risk; failing pairs are re-checked under 8 fresh draws."),
  "C12": dict(level="exploration", design="DESIGN.md §4 C12",
    technique="property-based testing: metamorphic independence (opponent clock, token order) and bound check on the budget produced by the real go parser (hook)",
@@ -52,7 +52,7 @@ CHECKS = {
    note="Hook verif_go_budget records (depth, time limit) just before the search and returns."),
  "C16": dict(level="exploration", design="DESIGN.md §4 C16",
    technique="property-based testing of the real process: generated command scripts over stdin, stdout parsed against a line-by-line transcript grammar (reference model of the protocol), exit status checked",
-   text="Generated scripts of all line kinds incl. unknown/blank/UTF-8 lines, ending in quit (with trailing lines) or end of input (with/without final newline); stdout must match the slot grammar exactly and the process must exit 0. Unknown lines include lines with bytes that are not valid UTF-8.",
+   text="Generated scripts of all line kinds incl. unknown/blank/UTF-8 lines, ending in quit (with trailing lines) or end of input (with/without final newline); stdout must match the slot grammar exactly and the process must exit 0. Unknown lines include lines with bytes that are not valid UTF-8. Long scripts (260..760 lines), very long lines incl. one long token with a command word glued in at a power-of-two offset, position lines that continue the previous one's game.",
    note="Termination judged with a 5 s allowance on an idle process; a go that never answers is inconclusive (exit 2)."),
 
  "C03": dict(level="exploration", design="DESIGN.md §4 C03",
